@@ -371,7 +371,24 @@ def make_probes(ctx, types, npairs, only_ops=None, salt="probes"):
                 prs = pick_pairs(bases, rnd, 0) + [(a, e) for a in bases for e in rnd.sample(exps, 3)]
                 prs += [(a, e) for a in (0, 1, -1) if lo <= a <= hi for e in (hi, max(hi - 1, 0)) if e <= hi]
                 prs = [(a, e) for a, e in prs if 0 <= e <= hi]
-                for a, e in prs[: max(npairs, 10)]:
+                rnd.shuffle(prs)
+                # boundaries: a**e exactly at / one step beyond the ends of the range, for several bases
+                edge = [(0, 0), (0, 1), (1, 0), (hi, 1), (hi, 2), (lo, 1), (lo, 2), (lo, 0)]
+                for b_ in (2, 3, 7, 10, -2, -3, -10, 2 ** (T[1] // 8)):
+                    if not lo <= b_ <= hi:
+                        continue
+                    k = 0
+                    while lo <= b_ ** (k + 1) <= hi and k < 300:
+                        k += 1
+                    edge += [(b_, k), (b_, k + 1)] + ([(b_, k + 2)] if b_ < 0 else []) + ([(b_, k - 1)] if k > 0 else [])
+                if T[0]:
+                    edge += [(-1, 255 if hi >= 255 else hi), (-1, 254 if hi >= 254 else hi - 1), (-2, T[1] - 1), (-2, T[1]), (2, T[1] - 2), (2, T[1] - 1)]
+                else:
+                    edge += [(2, T[1] - 1), (2, T[1]), (2 ** (T[1] // 2), 2), (2 ** (T[1] // 2) - 1, 2)]
+                edge = [(a, e) for a, e in dict.fromkeys(edge) if lo <= a <= hi and 0 <= e <= hi]
+                if ctx.tier == "quick":
+                    edge = rnd.sample(edge, min(len(edge), 12))
+                for a, e in edge + prs[: max(npairs // 2, 4)]:
                     # run time needs one literal side: literal base and literal exponent variants
                     probes.append(P.Probe(cls, T, (a, e), f"{P.lit(a)} ** {P.lit(e)}", [tn], f"{P.lit(a)} ** x0", (e,), tn))
                     probes.append(P.Probe(cls, T, (a, e), f"{P.lit(a)} ** {P.lit(e)}", [tn], f"x0 ** {P.lit(e)}", (a,), tn))
@@ -524,6 +541,15 @@ def make_constant_probes(ctx, types, npairs):
                 else:
                     pre, lib, e = B + f"C{{i}}: constant({tn}) = lib1.A{{i}} {sym} B{{i}}\n", A, "C{i}"
                 probes.append(P.Probe(cls, T, (a, b), e, [tn, tn], f"x0 {sym} x1", (a, b), tn, pre=pre, libpre=lib))
+        if T[0] and T[1] < 256:
+            # unsafe_* at the overflow boundaries of narrow signed types (raw result overflows with the sign bit clear / set)
+            half = 2 ** (T[1] - 2)
+            for f, a, b in (("unsafe_mul", half, 5), ("unsafe_mul", hi, hi), ("unsafe_mul", lo, lo), ("unsafe_mul", lo, -1), ("unsafe_mul", half, 2),
+                            ("unsafe_sub", lo, 1), ("unsafe_sub", hi, -1), ("unsafe_add", hi, 1), ("unsafe_add", lo, -1), ("unsafe_add", hi, hi),
+                            ("unsafe_div", lo, -1)):
+                probes.append(P.Probe(f, T, (a, b), f"{f}({a}, {b})", [tn, tn], f"{f}(x0, x1)", (a, b), tn))
+                pre = f"A{{i}}: constant({tn}) = {a}\nB{{i}}: constant({tn}) = {b}\n"
+                probes.append(P.Probe(f, T, (a, b), f"{f}(A{{i}}, B{{i}})", [tn, tn], f"{f}(x0, x1)", (a, b), tn, pre=pre))
         for f in ("min", "max", "unsafe_add", "unsafe_sub", "unsafe_mul", "unsafe_div"):
             for a, b in pick_pairs(g, rnd, 2, [(lo, -1), (hi, hi)]):
                 pre = f"A{{i}}: constant({tn}) = {a}\nB{{i}}: constant({tn}) = {b}\nC{{i}}: constant({tn}) = {f}(A{{i}}, B{{i}})\n"
@@ -778,7 +804,7 @@ def run(ctx):
             tie_broken = [{"form": "model-evaluation", "expr": "-", "real": "-", "model": str(e)[-400:]}]
             model_ok = False
     # paired probes: the property's own observation (independent of the Coq model)
-    probes = make_probes(ctx, types, npairs) + make_misc_probes(ctx, npairs) + make_constant_probes(ctx, types[:5] if ctx.tier == "quick" else types, npairs)
+    probes = make_probes(ctx, types, npairs) + make_misc_probes(ctx, npairs) + make_constant_probes(ctx, (types[:5] if ctx.tier == "quick" else types) + [(True, 16)], npairs)
     n, nf, mism = run_probes(ctx, probes, cfgs, "q", with_model=model_ok)
     total += n
     failing += nf
